@@ -108,6 +108,9 @@ def gen(rng, idx, tier, seed):
             spec['rank'] = int(rng.integers(1, 5))
             spec['axis'] = int(rng.integers(0, spec['rank']))
             spec['extrapolate'] = False
+            # the coordinate lives in another variable (coordkey=) while the
+            # dimension's namesake variable is a plain index
+            spec['coordkey'] = bool(mode == 'filedim' and rng.random() < 0.3)
     else:
         n = int(rng.integers(1, 11))
         m = int(rng.integers(1, 11))
@@ -387,6 +390,12 @@ def run(spec, res):
             f.createDimension(d, n)
         zv = f.createVariable('z', 'd', ('z',))
         zv[:] = xs
+        ck = None
+        if spec.get('coordkey'):
+            zv[:] = np.arange(xs.size)
+            ck = 'pz'
+            f.createVariable('pz', 'd', ('z',))[:] = xs
+            facets.append('coordkey')
         # a field that is linear in z with per-column slope/intercept
         sl = rng.uniform(-2, 2, [1 if i == ax else s
                                  for i, s in enumerate(shape)])
@@ -400,7 +409,10 @@ def run(spec, res):
             d for d in dims if d != 'z')) if rank > 1 else None
         try:
             if mode == 'filedim':
-                out = f.interpDimension('z', nxs)
+                if ck:
+                    out = f.interpDimension('z', nxs, coordkey=ck)
+                else:
+                    out = f.interpDimension('z', nxs)
                 res.hook('interpDimension.return')
             else:
                 from PseudoNetCDF.core._functions import interpvars
@@ -437,7 +449,7 @@ def run(spec, res):
                 problems.append('dimension z has length %d, expected %d'
                                 % (len(out.dimensions['z']), nxs.size))
             if mode == 'filedim':
-                gz = np.asarray(out.variables['z'][...], 'f8')
+                gz = np.asarray(out.variables[ck or 'z'][...], 'f8')
                 if gz.shape != tz.shape or np.abs(gz - tz).max() > 1e-9 * (
                         1 + np.abs(tz).max()) + 1e-9 * span_of(xs):
                     problems.append('coordinate z after interpolation %s, '
